@@ -355,7 +355,7 @@ func (h *NtfnsHandler) filterTxForImporting(tx *wire.MsgTx, blockMeta *txmgr.Blo
 	return rec, nil
 }
 
-func (h *NtfnsHandler) filterTx(tx *wire.MsgTx, blockMeta *txmgr.BlockMeta,
+func (h *NtfnsHandler) filterTx(dbtx mwdb.ReadTransaction, tx *wire.MsgTx, blockMeta *txmgr.BlockMeta,
 	recInCurBlk map[wire.Hash]*txmgr.TxRecord,
 	readyWallets map[string]struct{}) (bool, *txmgr.TxRecord, error) {
 
@@ -391,11 +391,17 @@ func (h *NtfnsHandler) filterTx(tx *wire.MsgTx, blockMeta *txmgr.BlockMeta,
 				} else {
 					// For connected block, it's unnecessary to go on checking
 					// if no output created by previous hash.
+					// look through the transaction that is connecting blocks: it holds the credits of
+					// blocks connected earlier in the same transaction (not yet committed)
 					exist := false
-					mwdb.View(h.walletMgr.db, func(rtx mwdb.ReadTransaction) error {
-						exist = h.walletMgr.utxoStore.ExistCreditFromTx(rtx, &txIn.PreviousOutPoint.Hash)
-						return nil
-					})
+					if dbtx != nil {
+						exist = h.walletMgr.utxoStore.ExistCreditFromTx(dbtx, &txIn.PreviousOutPoint.Hash)
+					} else {
+						mwdb.View(h.walletMgr.db, func(rtx mwdb.ReadTransaction) error {
+							exist = h.walletMgr.utxoStore.ExistCreditFromTx(rtx, &txIn.PreviousOutPoint.Hash)
+							return nil
+						})
+					}
 					if !exist {
 						continue
 					}
@@ -570,7 +576,7 @@ func (h *NtfnsHandler) filterBlock(dbtx mwdb.DBTransaction, readyWallets map[str
 	if len(readyWallets) > 0 {
 		recInCurBlk := make(map[wire.Hash]*txmgr.TxRecord)
 		for i, tx := range block.Transactions {
-			isRelevant, rec, err := h.filterTx(tx, blockMeta, recInCurBlk, readyWallets)
+			isRelevant, rec, err := h.filterTx(dbtx, tx, blockMeta, recInCurBlk, readyWallets)
 			if err != nil {
 				logging.CPrint(logging.WARN, "Unable to filter transaction",
 					logging.LogFormat{
@@ -1192,7 +1198,7 @@ func (h *NtfnsHandler) proccessReceivedTx(tx *wire.MsgTx) error {
 	if err != nil {
 		return err
 	}
-	if _, _, err := h.filterTx(tx, nil, nil, readyWallets); err != nil {
+	if _, _, err := h.filterTx(nil, tx, nil, nil, readyWallets); err != nil {
 		logging.CPrint(logging.WARN, "Unable to filter transaction",
 			logging.LogFormat{
 				"tx":  tx.TxHash().String(),
